@@ -1,6 +1,6 @@
 """C11 - sharing keeps one upstream subscription and follows the reference count (DESIGN 6/C11)."""
 import json, os, shutil
-import vlib, parts_share
+import vlib, parts_share, parts_subject
 
 PID = 'C11'
 
@@ -51,6 +51,11 @@ def main(argv):
     parts_share.run_seq(rep, PID, th)
     gauge_part(rep, 1000 if th else 300, [rep.seed * 100 + i for i in range(5 if th else 1)], park=False)
     gauge_part(rep, 120 if th else 30, [rep.seed * 100 + 50 + i for i in range(3 if th else 1)], park=True)
+    # the connector of Share / ShareReplay / connectables is a publish / behavior / replay subject: a subscriber that joins while the source keeps
+    # emitting receives the replay and then the live values with nothing missing in between (linearizability, SubjectLin.tla)
+    for kd in ('replay', 'publish', 'behavior'):
+        parts_subject.lin_part(rep, PID, 300 if th else 150, [rep.seed * 100 + 70], park=False, kind=kd)
+        parts_subject.lin_part(rep, PID, 40 if th else 12, [rep.seed * 100 + 80], park=True, kind=kd)
     rep.cov['rule'] = ('(a) TLC enumerates every operation sequence (subscribe i, re-entrant subscribe, unsubscribe i, source next/error/complete; for connectables also connect/disconnect) '
                        'up to 4-5 operations for all 8 reset-flag combinations x connectors {publish, behavior, replay 1, replay 2} (ShareSeq.tla) and 8 connectable configurations (ConnSeq.tla); '
                        'the real Share/ShareReplay/ShareWithConfig/Connectable are driven through each over an instrumented source (deliveries per subscriber, live and total upstream '
@@ -63,6 +68,8 @@ def main(argv):
 
 def replay(path):
     vlib.build_harness()
+    if path.endswith('.ndjson') and 'subject-lin' in path:
+        return parts_subject.replay_lin(PID, path)
     if path.endswith('.ndjson'):
         v = vlib.validate_traces('ShareGauge', 'ShareGauge_C11.cfg', path)
         for t in v['rejected']:
